@@ -4,7 +4,8 @@ import numpy as np
 
 RULE = ('cases = (a) seeded angle histories of 1-300 frames in [0,360): '
         'uniform, small-step random walks dwelling in buffers, approaches to '
-        'the 0/360 seam and to each gate from both sides, square waves; '
+        'the 0/360 seam and to each gate from both sides, square waves, '
+        'angles on 1/5/10/30/60-degree grids (exactly on hard boundaries); '
         'boundary sets [0,180,360], [0,160,360], [0,120,240,360]; buffer '
         'widths 0 .. just below (360-widest basin)/2; angles kept off the '
         'exact gate values; (b) state sequences as 1-D, 2-D and ragged arrays '
@@ -78,18 +79,20 @@ def machine(angles, hb, b):
 
 
 def gates(hb, b):
+    """The finitely many exact gate values: boundary -/+ buffer (mod 360).
+    With a positive buffer the hard boundaries themselves are NOT gates and
+    are legitimate angles."""
     g = set()
     for x in hb:
         for s in (-1, 1):
             g.add((x + s * b) % 360.0)
-        g.add(x % 360.0)
     return sorted(g)
 
 
 def gen_angles(rng, hb, b):
     n = int(rng.integers(1, 301))
-    kind = ['uniform', 'walk', 'seam', 'gates', 'square'][
-        int(rng.integers(0, 5))]
+    kind = ['uniform', 'walk', 'seam', 'gates', 'square', 'grid'][
+        int(rng.integers(0, 6))]
     G = gates(hb, b)
     if kind == 'uniform':
         a = rng.uniform(0, 360, size=n)
@@ -103,6 +106,11 @@ def gen_angles(rng, hb, b):
         g = G[int(rng.integers(0, len(G)))]
         a = (g + rng.normal(0, 4.0, size=n) +
              (rng.random(n) < 0.1) * rng.uniform(-180, 180, size=n)) % 360.0
+    elif kind == 'grid':
+        # angles on a coarse grid: exact multiples of 5, 30 or 60 degrees,
+        # which land exactly on the hard boundaries (0, 120, 160, 180, 240)
+        step = [5, 10, 30, 60, 1][int(rng.integers(0, 5))]
+        a = (rng.integers(0, 360 // step, size=n) * step).astype(float)
     else:
         c = [(hb[i] + hb[i + 1]) / 2 for i in range(len(hb) - 1)]
         seq = rng.integers(0, len(c), size=n)
@@ -130,7 +138,13 @@ def run_rot(ctx, rng, idx):
             'angles': angles if len(angles) <= 40 else 'elided'}
     ctx.describe(desc)
     ctx.seen('histories', '%s/%s' % (hb, kind))
-    exp, dec = machine(angles, hb, b)
+    if rng.random() < 0.15:
+        angles = angles.astype(np.float32)
+        G = gates(hb, b)
+        angles = np.where(np.isin(angles, np.array(G, dtype=np.float32)),
+                          angles + np.float32(0.03), angles)
+        angles = np.where(angles >= 360, np.float32(0.5), angles)
+    exp, dec = machine([float(a) for a in angles], hb, b)
     hb_arg = hb if rng.random() < 0.5 else np.array(hb)
     fz = Frozen(angles, hb_arg)
     ctx.decisions = []
